@@ -2,6 +2,7 @@
 //! FixedSizeUniqueIndexSet, StaticRobustUniqueIndexSet and bb-memory PoolAllocator under the
 //! baton scheduler and prints every gated access.
 //! usage: c09 exh <kind> <bound> <shard> <nshards> <seed> <maxexecs>
+//!        c09 exhp <kind> <bound> <cap> <program> <maxexecs>   (all schedules of ONE program)
 //!        c09 rnd <kind> <count> <shard> <nshards> <seed>
 //!        c09 one <kind> <cap> <program> <schedule>   (replay: program "acq,rel|acq", schedule "0,0,1")
 //!        c09 wrap <gated:0|1>                        (F12 witness: 2^16 head updates inside one preemption)
@@ -386,6 +387,16 @@ fn main() {
                 let mut visit = |ex: &Exec| { let q = cur.borrow(); emit(kind, cap, &prog, ex, q.as_ref().unwrap(), &mut **outcell.borrow_mut()); };
                 explore(bound, maxexecs, &mut mk, &mut visit);
             }
+        }
+        "exhp" => {
+            // one program: c09 exhp <kind> <bound> <cap> <program> <maxexecs>
+            let kind = a[2].as_str(); let bound: usize = a[3].parse().unwrap(); let cap: usize = a[4].parse().unwrap();
+            let prog = p(&a[5]); let maxexecs: usize = a[6].parse().unwrap();
+            let cur: std::cell::RefCell<Option<Sut>> = std::cell::RefCell::new(None);
+            let mut mk = || { let q = make(kind, cap); let b = bodies(&q, &prog); *cur.borrow_mut() = Some(q); b };
+            let outcell = std::cell::RefCell::new(&mut out);
+            let mut visit = |ex: &Exec| { let q = cur.borrow(); emit(kind, cap, &prog, ex, q.as_ref().unwrap(), &mut **outcell.borrow_mut()); };
+            explore(bound, maxexecs, &mut mk, &mut visit);
         }
         "rnd" => {
             let kind = a[2].as_str(); let count: u64 = a[3].parse().unwrap();
